@@ -1,5 +1,6 @@
 import BqVerif.Proofs.CircHistory
 import BqVerif.Proofs.CircInvB
+import BqVerif.Proofs.CircIter
 /-! # C05 — all views of a Circuit stay mutually consistent after every edit
 
 The views (`next/prev/front/rear/first_on/last_on`, counters, iteration) are *functions of the
@@ -33,6 +34,15 @@ theorem C05_inv_history_from (c : Circ) (h : List Call) (hinv : c.Inv)
 implementation's grid, and used inside the relational validators of fold/straighten — decides
 exactly the propositional invariant. -/
 theorem C05_invB_decides_inv (c : Circ) : c.invB = true ↔ c.Inv := invB_iff c
+
+/-- Iteration (row-major, each cycle by `location[0]` — the order the implementation's DAG
+iterator is compared with after every call) yields every operation exactly once … -/
+theorem C05_iter_each_op_once (c : Circ) : c.iter.Perm c.ops := iter_perm_ops c
+
+/-- … in an order compatible with every qudit's timeline: restricted to any qudit it is exactly
+that qudit's timeline in the grid. -/
+theorem C05_iter_compatible_with_timelines (c : Circ) (hinv : c.Inv) (q : Nat) :
+    proj q c.iter = c.timeline q := proj_iter c hinv q
 
 /-- `append` places the operation in a cycle where all its cells were free (the grid never holds
 two operations in one cell). -/
